@@ -400,6 +400,10 @@ def impl_ops(case):
     p = mk()
     p.standardize()
     out["std"] = np.asarray(p.data).tolist()
+    # the standardised table refilled in place with the raw values and standardised again: the same result once more
+    p.data[...] = np.array(case["data"], dtype=np.float64)
+    p.standardize()
+    out["std_after_refill"] = np.asarray(p.data).tolist()
     p = mk()
     p.append("extra", np.arange(len(case["samples"]), dtype=np.float64))
     out["append"] = {"names": list(p.names), "samples": list(p.samples), "data": np.asarray(p.data).tolist()}
@@ -482,6 +486,8 @@ def oracle_ops(case, obs):
             tol_mean = 1e-9 + 8 * ns * 2.3e-16 / rel_sd
             if abs(mean) > tol_mean or abs(var - 1) > 1e-9:
                 return f"column {col} standardised to {std}: mean {mean}, variance {var} (expected 0 and 1)"
+    if "std_after_refill" in obs and C.jdump(obs["std_after_refill"]) != C.jdump(obs["std"]):
+        return f"standardize(), the table refilled in place with its raw values, standardize() again: {obs['std_after_refill']}; the first time it gave {obs['std']}"
     if "append_history" in obs:
         r1, r2 = obs["append_history"]
         w1 = {"names": ["e1"], "data": [[float(i + 100)] for i in range(ns)]}
